@@ -50,6 +50,14 @@ type Config struct {
 	SolverLog   string
 	Seed        int64
 	Solver      string
+	EvDir       string // where evidence is written (default <Verif>/evidence)
+}
+
+func (c *Config) evDir() string {
+	if c.EvDir != "" {
+		return c.EvDir
+	}
+	return filepath.Join(c.Verif, "evidence")
 }
 
 var defaultInitPkgs = []string{
@@ -336,7 +344,7 @@ func RunProperty(cfg *Config, spec *PropSpec, known []KnownFinding) int {
 	var sizes types.Sizes = &types.StdSizes{WordSize: 8, MaxAlign: 8}
 	out := &runOutcome{funcs: map[string]bool{}, assume: map[string]bool{}}
 	rp := &replayer{cfg: cfg, l: l, bins: map[string]string{}}
-	evdir := filepath.Join(cfg.Verif, "evidence", "replay")
+	evdir := filepath.Join(cfg.evDir(), "replay")
 	os.MkdirAll(evdir, 0o755)
 	// stale replay files of this property
 	if old, _ := filepath.Glob(filepath.Join(evdir, spec.ID+"-*.json")); old != nil {
@@ -634,7 +642,7 @@ func finish(cfg *Config, spec *PropSpec, out *runOutcome, wall time.Duration) in
 			"check_health_problems":        out.broken,
 		},
 	}
-	writeJSON(filepath.Join(cfg.Verif, "evidence", spec.ID+".json"), ev)
+	writeJSON(filepath.Join(cfg.evDir(), spec.ID+".json"), ev)
 	for _, k := range dedup(out.known) {
 		fmt.Println(k)
 	}
